@@ -2,6 +2,13 @@ import Driver.Core
 import Driver.Pure
 import Driver.Vdb
 import Driver.Ledger
+import Driver.Spork
+import Driver.Pool
+import Driver.Rewards
+import Driver.Consensus
+import Driver.Codec
+import Driver.Wallet
+import Driver.Genesis
 import Driver.Verify
 /-
 One line per handler object. The first handler that understands a line answers it.
@@ -13,6 +20,18 @@ def registry : List Obj := [
   pureObj pureRpc,
   vdbObj,
   ledgerObj,
+  sporkObj,
+  pureObj purePool,
+  pureObj pureRewards,
+  mkObj (⟨[], none⟩ : ZV.Pool.PState) poolStep,
+  pureObj pureElection,
+  pureObj pureTicker,
+  pureObj pureBeforeTime,
+  pureObj pureMverify,
+  pureObj pureAddMomentum,
+  pureObj pureCodec,
+  pureObj pureWallet,
+  pureObj pureGenesis,
   pureObj VerifyD.pureVerify
 ]
 
